@@ -107,6 +107,7 @@ def insert_probes(text: str):
     out = []
     counts = {"snap": 0, "restore": 0, "alt": 0, "loop": 0, "rule": 0, "sites": 0}
     in_rules = False
+    setstate_ind = None
     site = -1
     alt_k = 0
     choice_stack = []   # (indent of `let state`, parser name, site)
@@ -120,9 +121,15 @@ def insert_probes(text: str):
         if st.startswith("fn get_state(") and st.endswith("{"):
             out.append(" " * (ind + 4) + "self.probe_snap(diags);")
             counts["snap"] += 1
-        elif st == "self.cst.data.truncate(state.truncation_mark.clone());":
-            out.append(" " * ind + "self.probe_restore(diags);")
+        elif st.startswith("fn set_state(") and setstate_ind is None:
+            setstate_ind = ind
+        elif setstate_ind is not None and setstate_ind >= 0 and ln == " " * setstate_ind + "}":
+            # last statement of set_state: everything the parser restores has been restored
+            out.pop()
+            out.append(" " * (setstate_ind + 4) + "self.probe_restore(diags);")
+            out.append(ln)
             counts["restore"] += 1
+            setstate_ind = -1
         elif st.startswith("fn rule_") and st.endswith("{"):
             in_rules = True
             nm = st[len("fn rule_"):st.index("(")]
@@ -149,9 +156,9 @@ def insert_probes(text: str):
                         break
             if pname:
                 out.pop()
-                out.append(" " * ind + f"{pname}.probe_loop_enter({counts['loop']});")
+                out.append(" " * ind + f"let __la{counts['loop']} = {pname}.probe_loop_enter({counts['loop']});")
                 out.append(ln)
-                out.append(" " * (ind + 4) + f"{pname}.probe_loop({counts['loop']});")
+                out.append(" " * (ind + 4) + f"{pname}.probe_loop({counts['loop']}, __la{counts['loop']});")
                 counts["loop"] += 1
         elif in_rules and st.endswith(".get_state(diags);") and st.startswith("let state = "):
             pname = st[len("let state = "):].split(".")[0]
@@ -183,6 +190,39 @@ def insert_probes(text: str):
             out.append(" " * (ind + 4) + f"{c[1]}.probe_alt({c[2]}, -1);")
         i += 1
     return "\n".join(out), counts
+
+
+def choice_sites(text: str):
+    """ordered-choice sites of an emitted parser: [(line of `let state`, [first lines of the attempts])]"""
+    lines = text.split("\n")
+    sites = []
+    cur = None
+    for i, ln in enumerate(lines):
+        st = ln.strip()
+        ind = len(ln) - len(ln.lstrip())
+        if st.startswith("let state = ") and st.endswith(".get_state(diags);"):
+            cur = [ind, i, []]
+            sites.append(cur)
+        elif cur is not None and ind == cur[0]:
+            if st.startswith("if matches!("):
+                cur[2].append(i)
+            elif st.endswith(".in_ordered_choice = false;"):
+                cur = None
+        elif cur is not None and ind < cur[0] and st:
+            cur = None
+    return [(c[1], c[2]) for c in sites]
+
+
+def disable_attempts(text: str, site: int, k: int):
+    """the same parser with the first k attempts of one choice site switched off (`if false && matches!`):
+    what the parser would do if only the later alternatives had ever been tried (C08 differential)"""
+    lines = text.split("\n")
+    sites = choice_sites(text)
+    if site >= len(sites) or k > len(sites[site][1]):
+        return None
+    for i in sites[site][1][:k]:
+        lines[i] = lines[i].replace("if matches!(", "if false && matches!(", 1)
+    return "\n".join(lines)
 
 
 # ---------------------------------------------------------------------------------------------
@@ -303,10 +343,10 @@ class Arena:
             shutil.rmtree(self.dir)
         src = self.dir / "src"
         src.mkdir(parents=True)
-        (self.dir / "Cargo.toml").write_text(
+        (self.dir / "Cargo.toml").write_text((
             '[package]\nname = "arena"\nversion = "0.0.0"\nedition = "2024"\npublish = false\n\n'
-            '[profile.dev]\nopt-level = 1\ndebug = 0\ndebug-assertions = true\noverflow-checks = true\nincremental = false\n\n'
-            '[profile.release]\nopt-level = 2\ndebug = 0\nincremental = false\n\n[workspace]\n')
+            '[profile.dev]\nopt-level = %s\ndebug = 0\ndebug-assertions = true\noverflow-checks = true\nincremental = false\n\n'
+            '[profile.release]\nopt-level = 2\ndebug = 0\nincremental = false\n\n[workspace]\n') % os.environ.get('VERIF_ARENA_OPT', '0'))
         shutil.copy(TMPL / "common.rs", src / "common.rs")
         shutil.copy(TMPL / "mon.rs", src / "mon.rs")
         self.mods = []
@@ -320,6 +360,16 @@ class Arena:
                 u.probe_counts = counts
                 emit_module(src, u.gid + "p", u, probed, alias)
                 self.mods.append((u.gid + "p", u, True))
+                u.variants = []
+                if getattr(u, "want_variants", False):
+                    for si, (_, attempts) in enumerate(choice_sites(u.generated)):
+                        for k in range(1, len(attempts) + 1):
+                            vt = disable_attempts(u.generated, si, k)
+                            if vt is not None:
+                                tag = f"v{si}_{k}"
+                                emit_module(src, u.gid + tag, u, vt, alias)
+                                self.mods.append((u.gid + tag, u, tag))
+                                u.variants.append((si, k, tag))
         self._write_main()
 
     def write_mixed(self, units, alias=True):
@@ -350,7 +400,7 @@ class Arena:
                 return failed
             bad = {}
             for ln in r.stdout.splitlines():
-                m = re.match(r"src/(g\w+)/(generated|mod)\.rs:(\d+):(\d+): error(\[E\d+\])?: (.*)", ln)
+                m = re.match(r"src/(\w+)/(generated|mod)\.rs:(\d+):(\d+): error(\[E\d+\])?: (.*)", ln)
                 if m:
                     bad.setdefault(m.group(1), []).append(f"{m.group(2)}.rs:{m.group(3)}: error{m.group(5) or ''}: {m.group(6)}")
             if not bad:
@@ -358,12 +408,12 @@ class Arena:
             for m, errs in bad.items():
                 failed[m] = errs
             # drop both twins of a failing grammar
-            gids = {m[:-1] if m.endswith("p") and m[:-1] in {x[0] for x in self.mods} else m for m in bad}
+            gids = {u.gid for m, u, _ in self.mods if m in bad}
             keep = []
             for m, u, p in self.mods:
                 if u.gid in gids:
                     if u.compile_error is None:
-                        u.compile_error = failed.get(u.gid) or failed.get(u.gid + "p")
+                        u.compile_error = failed.get(u.gid) or failed.get(u.gid + "p") or next((failed[x] for x in failed if x.startswith(u.gid)), None)
                     shutil.rmtree(self.dir / "src" / m, ignore_errors=True)
                 else:
                     keep.append((m, u, p))
